@@ -908,6 +908,10 @@ class ConstEval:
                 return len(v)
             except Exception as e:
                 raise Unknown(str(e))
+        if fname in ("sizeof", "ctypes.sizeof") and len(node.args) == 1 and not node.keywords:
+            from . import wire
+
+            return wire.sizeof(self, self.eval(node.args[0], m, env))
         if fname in ("int", "float", "str", "tuple", "list", "abs", "min", "max", "sum", "sorted", "set", "range") and not node.keywords:
             args = [self.eval(a, m, env) for a in node.args]
             try:
